@@ -772,43 +772,30 @@ Proof. apply sound_of_cert. vm_cast_no_check (eq_refl true). Qed.
 Lemma sound_IPv6address : forall s, bytes_ok s -> uri_accepts TIPv6address s -> matches (rfc TIPv6address) s.
 Proof. apply sound_of_cert. vm_cast_no_check (eq_refl true). Qed.
 
-(* ---------- the recorded finding, computed on the generated table ---------- *)
+(* ---------- the repaired host rule, computed on the generated table (regression witnesses) ----------
+   Before /repo b222ba6, uri::host = sor< IP_literal, IPv4address, reg_name > committed to an IPv4address that was only the
+   prefix of a reg-name and the strings below were REJECTED although RFC 3986 derives them (host = reg-name); that refuted
+   completeness of the three URI forms.  The table regenerated from the repaired uri.hpp accepts them. *)
 (* "//1.2.3.4a" *)
 Definition host_witness : list byte := [47; 47; 49; 46; 50; 46; 51; 46; 52; 97].
-
-Lemma complete_refuted :
-  exists s, bytes_ok s /\ matches (rfc TURI_reference) s /\ uri_rejects TURI_reference s /\ ~ uri_accepts TURI_reference s.
-Proof.
-  assert (R : uri_rejects TURI_reference host_witness).
-  { exists (uri_fuel host_witness). vm_compute. do 2 eexists. left. reflexivity. }
-  exists host_witness. split; [|split; [|split]].
-  - unfold host_witness, bytes_ok. repeat constructor.
-  - apply re_match_correct. vm_compute. reflexivity.
-  - exact R.
-  - intros A. exact (accepts_not_rejects _ _ A R).
-Qed.
-
-(* the same defect refutes completeness of URI and absolute_URI: "a://1.2.3.4a" *)
+(* "a://1.2.3.4a" *)
 Definition host_witness_abs : list byte := [97; 58; 47; 47; 49; 46; 50; 46; 51; 46; 52; 97].
-Lemma complete_refuted_for (t : top) (w : list byte) :
-  bytes_ok w -> re_match (rfc t) w = true -> verdict_code (uri_run (uri_fuel w) t w) = 0 ->
-  exists s, bytes_ok s /\ matches (rfc t) s /\ uri_rejects t s /\ ~ uri_accepts t s.
+
+Lemma accepted_for (t : top) (w : list byte) :
+  verdict_code (uri_run (uri_fuel w) t w) = 1 -> uri_accepts t w.
 Proof.
-  intros Hb Hm Hv.
-  assert (R : uri_rejects t w).
-  { exists (uri_fuel w). destruct (uri_run (uri_fuel w) t w) as [[| |e] c evs| |] eqn:E; simpl in Hv; try discriminate.
-    - exists c, evs. left. reflexivity.
-    - destruct (is_parse_error e); discriminate. }
-  exists w. split; [exact Hb|]. split; [apply re_match_correct; exact Hm|]. split; [exact R|].
-  intros A. exact (accepts_not_rejects _ _ A R).
+  intros Hv. exists (uri_fuel w).
+  destruct (uri_run (uri_fuel w) t w) as [[| |e] c evs| |] eqn:E; simpl in Hv; try discriminate.
+  - exists c, evs. reflexivity.
+  - destruct (is_parse_error e); discriminate.
 Qed.
-Lemma host_witness_abs_ok : bytes_ok host_witness_abs.
-Proof. unfold host_witness_abs, bytes_ok. repeat constructor. Qed.
-Lemma complete_refuted_URI : exists s, bytes_ok s /\ matches (rfc TURI) s /\ uri_rejects TURI s /\ ~ uri_accepts TURI s.
-Proof. apply (complete_refuted_for TURI host_witness_abs host_witness_abs_ok); vm_compute; reflexivity. Qed.
-Lemma complete_refuted_absolute_URI :
-  exists s, bytes_ok s /\ matches (rfc Tabsolute_URI) s /\ uri_rejects Tabsolute_URI s /\ ~ uri_accepts Tabsolute_URI s.
-Proof. apply (complete_refuted_for Tabsolute_URI host_witness_abs host_witness_abs_ok); vm_compute; reflexivity. Qed.
+Lemma host_prefix_accepted :
+  matches (rfc TURI_reference) host_witness /\ uri_accepts TURI_reference host_witness /\
+  matches (rfc TURI) host_witness_abs /\ uri_accepts TURI host_witness_abs /\
+  matches (rfc Tabsolute_URI) host_witness_abs /\ uri_accepts Tabsolute_URI host_witness_abs.
+Proof.
+  repeat split; try (apply re_match_correct; vm_compute; reflexivity); apply accepted_for; vm_compute; reflexivity.
+Qed.
 
 (* ================================================================== Part 5: IPv4address is exact *)
 
